@@ -28,7 +28,10 @@ type MFile struct {
 	Version string
 	Name    string
 	TxMode  string // "" | none | file: the atlas:txmode directive
-	Stmts   []Stmt
+	// Checkpoint marks the file with the atlas:checkpoint directive: a first run on an empty
+	// database starts from it and never runs the files before it.
+	Checkpoint bool
+	Stmts      []Stmt
 }
 
 // Version returns the fixed-width version of file index i.
@@ -54,7 +57,13 @@ func ddlTable(id string) string { return "t_" + strings.NewReplacer(".", "_").Re
 func (f *MFile) Body() string {
 	var b strings.Builder
 	if f.TxMode != "" {
-		fmt.Fprintf(&b, "-- atlas:txmode %s\n\n", f.TxMode)
+		fmt.Fprintf(&b, "-- atlas:txmode %s\n", f.TxMode)
+	}
+	if f.Checkpoint {
+		b.WriteString("-- atlas:checkpoint\n")
+	}
+	if f.TxMode != "" || f.Checkpoint {
+		b.WriteString("\n")
 	}
 	for _, s := range f.Stmts {
 		b.WriteString(s.SQL)
@@ -99,6 +108,9 @@ func Describe(files []*MFile) string {
 		tm := ""
 		if f.TxMode != "" {
 			tm = "[txmode " + f.TxMode + "]"
+		}
+		if f.Checkpoint {
+			tm += "[checkpoint]"
 		}
 		parts = append(parts, fmt.Sprintf("f%d%s(%s)", f.Idx, tm, strings.Join(ks, "")))
 	}
